@@ -225,7 +225,7 @@ def run_c18(case, eng, res):
             k = path.choose_value(a.t, "act") if isinstance(a, SymInt) else a
             kind = A_ACTIONS[k]
             # preconditions: connect only while disconnected; operations only while connected
-            if (kind in ("connect", "refused_connect", "ctx_ok", "ctx_refused") or kind in BODY_EXC) and state["connected"]:
+            if (kind in ("connect", "ctx_ok", "ctx_refused") or kind in BODY_EXC) and state["connected"]:
                 raise E.PathAbort()
             if kind in ("op", "failing_op") and not state["connected"]:
                 raise E.PathAbort()
@@ -348,7 +348,7 @@ def main_c18(tier):
     H.finish("C18", tier, "model_checking", results, t0,
              rule="every sequence of <= n actions over {connect, refused connect, operation, failing operation, disconnect, "
                   "async-with (normal / body raises / refused)} for both API types; connect is only issued while disconnected",
-             bounds={"actions": steps, "outside": "a second connect on a live client"},
+             bounds={"actions": steps, "outside": "a second *successful* connect on a live client (a refused one is included)"},
              assumptions=["stream contract of DESIGN 3.3: close()+wait_closed() deliver EOF; open_connection raises ConnectionRefusedError when refused"],
              technique="SHADOW execution of the real Python source under stub streams; solver-enumerated action variables",
              witness_checked=nw, exhaustive_splits=True,
